@@ -1,6 +1,7 @@
 package rules
 
 import (
+	"go/token"
 	"strconv"
 	"strings"
 
@@ -255,7 +256,7 @@ func runC35(c *an.Ctx) {
 				}
 				nonConst++
 				p := an.Path(e)
-				okE := p == "($0.Name==*^localName)" || p == "(*^localName==$0.Name)"
+				okE := p == "($0.Name==*^string)" || p == "(*^string==$0.Name)"
 				pred := phi.Block().Preds[i]
 				last := pred.Instrs[len(pred.Instrs)-1]
 				okG := an.GuardedBy(f, last, an.Cmp{L: "$0.Status", Op: "==", R: alive}) && an.GuardedBy(f, last, an.Cmp{L: "$0.ProtocolMax", Op: ">=", R: "c:5"})
@@ -267,7 +268,7 @@ func runC35(c *an.Ctx) {
 		okLN := false
 		for _, st := range an.FindInstrs(rr, func(in ssa.Instruction) bool { _, ok := in.(*ssa.Store); return ok }) {
 			s := st.(*ssa.Store)
-			if an.Path(s.Addr) == "&local:localName" && an.Path(s.Val) == "(*Serf).LocalMember($0).Name" {
+			if an.Path(s.Addr) == "&local:string" && an.Path(s.Val) == "(*Serf).LocalMember($0).Name" {
 				okLN = true
 			}
 		}
@@ -301,7 +302,7 @@ func runC35(c *an.Ctx) {
 			keep := append(an.EdgesImplying(km, an.Cmp{L: "dyn:$2(" + cand + ")", Op: "==", R: "c:false"}), an.EdgesImplying(km, an.Cmp{L: "$2", Op: "==", R: "c:nil"})...)
 			c.Add(an.Guarded(km, ap, keep), "R3", "selector:filter-respected", ap, "a member is appended only if the filter did not exclude it", "edge dominance")
 			exit := an.EdgesWhere(km, func(f an.Cmp) bool {
-				return strings.HasPrefix(f.L, "phi:j@") && f.Op == ">=" && f.R == "len("+res+")"
+				return strings.HasPrefix(f.L, "phi@") && f.Op == ">=" && f.R == "len("+res+")"
 			})
 			c.Add(an.Guarded(km, ap, exit), "R3", "selector:after-dedupe-scan", ap, "a member is appended only after the whole result was scanned for an equal name", "edge dominance by the scan's exit edge")
 			// equal name ⇒ not appended in this iteration
@@ -315,7 +316,7 @@ func runC35(c *an.Ctx) {
 				c.Add(r == nil, "R3", "selector:equal-name-skipped", ap, "a candidate whose name equals a selected member's is not appended", "reach/cut from the equal-name edge to the append within one iteration")
 			}
 			// appended element is the candidate
-			c.Add(appendedElemMentions(ap.(*ssa.Call), cand) || appendedElemMentions(ap.(*ssa.Call), "local:member"), "R3", "selector:appends-candidate", ap, "the appended element is the drawn candidate", "append operand")
+			c.Add(appendedElemMentions(ap.(*ssa.Call), cand) || appendedElemMentions(ap.(*ssa.Call), "local:Member"), "R3", "selector:appends-candidate", ap, "the appended element is the drawn candidate", "append operand")
 		}
 		// the scan compares every selected element: loop from 0 with step 1 (phi:j shape checked by nonNegIndex)
 	}
@@ -333,16 +334,33 @@ func runC36(c *an.Ctx) {
 		c.Floor("R4", "decode sites in resolveNodeConflict", decodeTargetsFresh(c, "R4", []*ssa.Function{rn}), 1)
 		var incR, incM []ssa.Instruction
 		var phiR, phiM *ssa.Phi
+		// the counters are found by role: the reply counter is the integer loop variable that is
+		// halved for the majority, the matching counter is the one compared against that majority
 		an.Instrs(rn, func(in ssa.Instruction) {
-			if p, ok := in.(*ssa.Phi); ok {
-				switch p.Comment {
-				case "responses":
-					phiR = p
-				case "matching":
-					phiM = p
+			b, ok := in.(*ssa.BinOp)
+			if !ok {
+				return
+			}
+			switch b.Op {
+			case token.QUO:
+				if k, isC := an.ConstInt(b.Y); isC && k == 2 {
+					if p, isPhi := b.X.(*ssa.Phi); isPhi {
+						phiR = p
+					}
+				}
+			case token.GEQ, token.LSS, token.GTR, token.LEQ:
+				for _, side := range []ssa.Value{b.X, b.Y} {
+					other := b.Y
+					if side == b.Y {
+						other = b.X
+					}
+					if p, isPhi := side.(*ssa.Phi); isPhi && isIntType(p.Type()) && strings.Contains(an.Path(other), "/c:2)") {
+						phiM = p
+					}
 				}
 			}
 		})
+		cname := map[*ssa.Phi]string{phiR: "responses", phiM: "matching"}
 		if phiR == nil || phiM == nil {
 			c.Anchor("R1", "counters responses/matching in resolveNodeConflict")
 		} else {
@@ -370,7 +388,7 @@ func runC36(c *an.Ctx) {
 							ok = true
 						}
 					}
-					c.Add(ok, "R1", "counter-update:"+p.Comment, p, "counter "+p.Comment+" only starts at 0, stays, or is incremented by one (operand "+an.Path(e)+")", "phi operands")
+					c.Add(ok, "R1", "counter-update:"+cname[p], p, "counter "+cname[p]+" only starts at 0, stays, or is incremented by one (operand "+an.Path(e)+")", "phi operands")
 				}
 			}
 			c.Floor("R1", "increments of responses", len(incR), 1)
@@ -384,7 +402,7 @@ func runC36(c *an.Ctx) {
 					return strings.HasSuffix(f.L, ".Payload[c:0]") && f.Op == "==" && f.R == msgT
 				})
 				dec := an.EdgesWhere(rn, func(f an.Cmp) bool {
-					return strings.HasPrefix(f.L, "decodeMessage(") && strings.HasSuffix(f.L, ".Payload[c:1:],&local:member)") && f.Op == "==" && f.R == "c:nil"
+					return strings.HasPrefix(f.L, "decodeMessage(") && strings.HasSuffix(f.L, ".Payload[c:1:],&local:Member)") && f.Op == "==" && f.R == "c:nil"
 				})
 				c.Add(an.Guarded(rn, in, pl), "R1", who+":non-empty", in, who+" only for a non-empty payload", "edge dominance")
 				c.Add(an.Guarded(rn, in, ty), "R1", who+":type-byte", in, who+" only for the conflict-response type byte", "edge dominance")
@@ -396,9 +414,9 @@ func runC36(c *an.Ctx) {
 			for _, in := range incM {
 				valid(in, "matching++")
 				addr := an.EdgesWhere(rn, func(f an.Cmp) bool {
-					return strings.HasPrefix(f.L, "net.(IP).Equal(local:member.Addr,memberlist.(*Memberlist).LocalNode($0.memberlist).Addr)") && f.Op == "==" && f.R == "c:true"
+					return strings.HasPrefix(f.L, "net.(IP).Equal(local:Member.Addr,memberlist.(*Memberlist).LocalNode($0.memberlist).Addr)") && f.Op == "==" && f.R == "c:true"
 				})
-				port := an.EdgesImplying(rn, an.Cmp{L: "local:member.Port", Op: "==", R: "memberlist.(*Memberlist).LocalNode($0.memberlist).Port"})
+				port := an.EdgesImplying(rn, an.Cmp{L: "local:Member.Port", Op: "==", R: "memberlist.(*Memberlist).LocalNode($0.memberlist).Port"})
 				c.Add(an.Guarded(rn, in, addr), "R1", "matching++:address", in, "matching++ only if the reported address equals the local address", "edge dominance")
 				c.Add(an.Guarded(rn, in, port), "R1", "matching++:port", in, "matching++ only if the reported port equals the local port", "edge dominance")
 				// every matching reply was also counted as a response
